@@ -6,3 +6,4 @@ import P2P.Props.C10
 #print axioms P2P.Props.C10.altloc_marker_witness
 #print axioms P2P.Props.C10.altloc_icode_name4_witness
 #print axioms P2P.Props.C10.auth_chain_witness
+#print axioms P2P.Props.C10.model_interleaving_irrelevant
